@@ -127,6 +127,16 @@ def annotate_snaps(events):
     run = []
 
     def flush():
+        # derivative-evaluation times recorded between two snapshots belong to the earlier step() call
+        has_evals = any(e["ev"] == "eval" for e in run)
+        cur = None
+        for e in run:
+            if e["ev"] == "snap":
+                cur = e
+                e["ets"] = []
+                e["has_evals"] = has_evals
+            elif e["ev"] == "eval" and cur is not None:
+                cur["ets"].append(e["t"])
         ev = [e for e in run if e["ev"] in ("reset", "snap", "item", "none", "err")]
         snaps = [k for k, e in enumerate(ev) if e["ev"] == "snap"]
         for idx, p in enumerate(snaps):
